@@ -24,6 +24,12 @@ VARIANTS = [
     B("gibbs-end-newlen", "                s_len = diff_len\n                f_len = s_len + org_len\n", "                s_len = diff_len\n                f_len = new_len + org_len\n", "R-BP-LEN"),
     B("gibbs-mid-shorter", "                s_len = int(diff_len / 2)\n                f_len = s_len + org_len\n", "                s_len = int(diff_len / 2)\n                f_len = s_len + org_len - 1\n", "R-BP-LEN"),
     B("final-slice-minus-1", "        mote = mote[s_len:f_len]  # TODO: don't use -1\n", "        mote = mote[s_len:f_len - 1]\n", "R-BP-LEN"),
+    B("final-slice-shifted", "        mote = mote[s_len:f_len]  # TODO: don't use -1\n", "        mote = mote[s_len + 1:f_len + 1]\n", "R-BP-LEN"),
+    B("embed-shifted", "            temp[s_len:f_len] = mote\n", "            temp[s_len + 1:f_len + 1] = mote\n", "R-BP-LEN"),
+    T("embed-by-concatenate", "            temp = start_value * np.ones(new_len)\n            temp[f_len:] = end_value\n            temp[s_len:f_len] = mote\n            mote = temp\n",
+      "            mote = np.concatenate((start_value * np.ones(s_len), mote, end_value * np.ones(new_len - f_len)))\n"),
+    B("embed-by-concatenate-shifted", "            temp = start_value * np.ones(new_len)\n            temp[f_len:] = end_value\n            temp[s_len:f_len] = mote\n            mote = temp\n",
+      "            mote = np.concatenate((start_value * np.ones(diff_len - s_len), mote, end_value * np.ones(s_len)))\n", "R-BP-LEN"),
     B("tuple-rejected", "        if isinstance(cut_off, list) or isinstance(cut_off, tuple) or isinstance(cut_off, np.ndarray):", "        if isinstance(cut_off, list) or isinstance(cut_off, np.ndarray):", "R-BP-TYPE"),
     B("abs-before-filter", "        mote = filtfilt(b, a, mote)\n", "        mote = filtfilt(b, a, np.abs(mote))\n", "R-BP-LEN"),
     B("poly-obj-drops-last", "        for co in range(len(cofs)):\n            mods = x ** (poly_fit - co)\n            y_cor += cofs[co] * mods\n\n        self.reset_values",
